@@ -15,16 +15,18 @@ import (
 	"github.com/gogo/protobuf/proto"
 )
 
-// The renamed lineage: URenA was renamed URenB (or URenQ), then URenC.
+// The renamed lineage: URenA was renamed URenB (or URenQ), then URenC, then URenD.
 type URenA struct{ Msg string }
 type URenB struct{ Msg string }
 type URenC struct{ Msg string }
 type URenQ struct{ Msg string }
+type URenD struct{ Msg string }
 
 func (e *URenA) Error() string { return e.Msg }
 func (e *URenB) Error() string { return e.Msg }
 func (e *URenC) Error() string { return e.Msg }
 func (e *URenQ) Error() string { return e.Msg }
+func (e *URenD) Error() string { return e.Msg }
 
 const pkgPath = "verifharness/internal/mig"
 
@@ -38,6 +40,8 @@ func sample(ty string) error {
 		return &URenC{}
 	case "uRenQ":
 		return &URenQ{}
+	case "uRenD":
+		return &URenD{}
 	}
 	panic("harness: unknown lineage type " + ty)
 }
@@ -52,13 +56,15 @@ func mk(ty, msg string) error {
 		return &URenC{Msg: msg}
 	case "uRenQ":
 		return &URenQ{Msg: msg}
+	case "uRenD":
+		return &URenD{Msg: msg}
 	}
 	panic("harness: unknown lineage type " + ty)
 }
 
 // TyName abstracts a Go value / a family name of the lineage.
 func TyName(s string) string {
-	for _, ty := range []string{"uRenA", "uRenB", "uRenC", "uRenQ"} {
+	for _, ty := range []string{"uRenA", "uRenB", "uRenC", "uRenQ", "uRenD"} {
 		t := reflect.TypeOf(sample(ty)).String() // *mig.URenA
 		if s == t || s == pkgPath+"/"+t {
 			return ty
